@@ -1416,6 +1416,99 @@ fn dp_stream(out: &mut Out, id: &mut u64) {
     }
 }
 
+/// Two endpoint error types that share their short name (`Error`) and nothing else.
+macro_rules! custom_error_type {
+    ($m:ident, $field:ident, $fty:ty, $val:expr, $doc:expr) => {
+        mod $m {
+            use schemars::JsonSchema;
+            use serde::Serialize;
+            #[doc = $doc]
+            #[derive(Debug, Serialize, JsonSchema)]
+            pub struct Error {
+                pub message: String,
+                pub $field: $fty,
+            }
+            impl dropshot::HttpResponseError for Error {
+                fn status_code(&self) -> dropshot::ErrorStatusCode {
+                    dropshot::ErrorStatusCode::BAD_REQUEST
+                }
+            }
+            impl From<dropshot::HttpError> for Error {
+                fn from(e: dropshot::HttpError) -> Self {
+                    Error { message: e.external_message, $field: $val }
+                }
+            }
+            impl std::fmt::Display for Error {
+                fn fmt(&self, f: &mut std::fmt::Formatter<'_>) -> std::fmt::Result {
+                    write!(f, "{}", self.message)
+                }
+            }
+        }
+    };
+}
+custom_error_type!(widgets, widget_state, String, "worn".to_string(), "What went wrong with a widget.");
+custom_error_type!(gadgets, code, u32, 7, "What went wrong with a gadget.");
+custom_error_type!(gizmos, retry_after_s, Option<u16>, None, "What went wrong with a gizmo.");
+
+/// `da` rows `error_*`: endpoints with their own error types (three types named `Error`,
+/// plus dropshot's own); the schema each operation publishes for its 4XX and 5XX responses,
+/// expanded through `components.responses` and `components.schemas`, must be the conversion
+/// of that endpoint's error type, in every registration order.
+fn de_stream(out: &mut Out, id: &mut u64, order_seed: u64) {
+    type Ep = dropshot::ApiEndpoint<dropshot::StubContext>;
+    fn ep<E: dropshot::HttpResponseError + Send + Sync + 'static>(i: usize) -> Ep {
+        dropshot::ApiEndpoint::new_for_types::<(), Result<dropshot::HttpResponseOk<u8>, E>>(
+            format!("e{}", i),
+            http::Method::GET,
+            "application/json",
+            &format!("/e{}", i),
+            dropshot::ApiEndpointVersions::All,
+        )
+    }
+    let mut rows: Vec<(&str, Option<Value>, Ep)> = vec![
+        ("error_widgets", own_expanded_as::<widgets::Error>(true), ep::<widgets::Error>(0)),
+        ("error_gadgets", own_expanded_as::<gadgets::Error>(true), ep::<gadgets::Error>(1)),
+        ("error_gizmos", own_expanded_as::<gizmos::Error>(true), ep::<gizmos::Error>(2)),
+        ("error_widgets_again", own_expanded_as::<widgets::Error>(true), ep::<widgets::Error>(3)),
+        ("error_dropshot", own_expanded_as::<dropshot::HttpErrorResponseBody>(true), ep::<dropshot::HttpError>(4)),
+    ];
+    let mut r = Rng(order_seed.wrapping_mul(0x9e3779b97f4a7c15) | 1);
+    for i in (1..rows.len()).rev() {
+        let j = r.below(i as u64 + 1) as usize;
+        rows.swap(i, j);
+    }
+    let mut api = dropshot::ApiDescription::<dropshot::StubContext>::new();
+    let mut meta = Vec::new();
+    for (tname, own, e) in rows {
+        let path = e.path.clone();
+        api.register(e).expect("registers");
+        meta.push((tname, path, own));
+    }
+    let doc = api.openapi("t", semver::Version::new(1, 0, 0)).json().expect("document");
+    let empty = JMap::new();
+    let defs = doc["components"]["schemas"].as_object().unwrap_or(&empty);
+    for (tname, path, own) in meta {
+        let mut ok = own.is_some();
+        for code in ["4XX", "5XX"] {
+            let mut resp = doc["paths"][&path]["get"]["responses"][code].clone();
+            if let Some(Value::String(r)) = resp.get("$ref").cloned() {
+                let name = r.rsplit('/').next().unwrap_or("").to_string();
+                resp = doc["components"]["responses"][&name].clone();
+            }
+            let published = &resp["content"]["application/json"]["schema"];
+            let pub_exp = expand(published, defs, &mut Vec::new());
+            if Some(&pub_exp) != own.as_ref() {
+                ok = false;
+                if std::env::var("VERIF_DEBUG").is_ok() {
+                    eprintln!("de {} {}: published {} own {:?}", tname, code, pub_exp, own.as_ref().map(|o| o.to_string()));
+                }
+            }
+        }
+        out.line(&format!("da {} {} {} => {}", id, tname, order_seed, ok as u8));
+        *id += 1;
+    }
+}
+
 fn da_stream(out: &mut Out, id: &mut u64, entries: Vec<DaEntry>, order_seed: u64) {
     // one document for all types the converter accepts, registered in a seeded order
     let mut usable: Vec<DaEntry> = entries.into_iter().filter(|e| e.1.is_some()).collect();
@@ -1505,6 +1598,9 @@ fn main() {
     }
 
     dp_stream(&mut out, &mut id);
+    for order_seed in 0..(if is_thorough() { 24 } else { 6 }) {
+        de_stream(&mut out, &mut id, order_seed);
+    }
 
     // ---- rs: random supported schemas --------------------------------------
     let n_rs = if is_thorough() { 20000 } else { 4000 };
